@@ -115,15 +115,20 @@ func (r *Run) Step(ch choice, pre obs) (string, bool) {
 			if r.expectBg {
 				// the source hands the connection to a background releaser: wait for it to park
 				deadline := time.Now().Add(Patience())
+				arrived := false
 				for time.Now().Before(deadline) {
 					r.mu.Lock()
 					bg := r.bgs[preConn]
-					okk := bg != nil && (bg.state == stYield || bg.state == stDone)
+					arrived = bg != nil && (bg.state == stYield || bg.state == stDone)
 					r.mu.Unlock()
-					if okk {
+					if arrived {
 						break
 					}
 					time.Sleep(10 * time.Microsecond)
+				}
+				if !arrived {
+					// the source promises a background releaser but none showed up: stop waiting so long
+					slowFailures.Add(1)
 				}
 			}
 		}
